@@ -941,6 +941,35 @@ theorem call_order_keys_witness :
       mkKey [.obj 1, .obj 3, .obj 2] := by
   decide
 
+/-! ### strong memos: the reviewed list -/
+
+/-- The memoising decorators and cache-like tables of the pinned tree, each reviewed for what it
+    keeps alive (kind, module, name, source, verdict).  A memo that holds interned objects strongly
+    (an `lru_cache` over domains, terms, ops or frozensets of them) defeats "held weakly" without
+    touching any intern table, so a NEW entry must be reviewed: `memos_reviewed` then fails and the
+    check runs the reclamation histories (fresh domains passed through every typing path). -/
+def reviewedMemos : List (String × String × String × String × String) := [
+  ("decorator", "funsor.distribution", "Distribution._infer_param_domain", "functools.lru_cache(maxsize=5000)",
+    "bounded: at most 5000 (class, param name, shape) entries; distributions only (outside the numpy pool)"),
+  ("decorator", "funsor.distribution", "Distribution._infer_value_domain", "functools.lru_cache(maxsize=5000)",
+    "bounded: at most 5000 (class, domains) entries; distributions only (outside the numpy pool)"),
+  ("decorator", "funsor.typing", "deep_issubclass", "functools.lru_cache(maxsize=None)",
+    "arguments are classes: parametrised funsor types whose parameters are metaclass-level types (RealsType, BintType), never interned domain objects; measured every run by the passed-through stream"),
+  ("table", "funsor.domains", "ArrayType._type_cache", "WeakValueDictionary()", "weak (table_own_weak)"),
+  ("table", "funsor.domains", "ProductDomain._type_cache", "WeakValueDictionary()", "weak (table_own_weak)"),
+  ("table", "funsor.interpretations", "Memoize.__init__.cache", "{}",
+    "scoped: lives with the memoize() context / the dict the caller passes (property C03)"),
+  ("table", "funsor.ops.op", "OpMeta.__init__.cls._instance_cache", "weakref.WeakValueDictionary()",
+    "weak (table_own_weak)"),
+  ("table", "funsor.terms", "FunsorMeta.__init__.cls._cons_cache", "WeakValueDictionary()",
+    "weak (table_own_weak)"),
+  ("table", "funsor.typing", "GenericTypeMeta.__init__.cls._type_cache", "weakref.WeakValueDictionary()",
+    "weak: parametrised classes")]
+
+theorem memos_reviewed :
+    FV.Gen.C07.memos = reviewedMemos.map (fun e => (e.1, e.2.1, e.2.2.1, e.2.2.2.1)) := by
+  decide
+
 /-! ### weakly held -/
 
 /-- Freeing an object removes its table entry with it: no later lookup can return it. -/
